@@ -212,3 +212,44 @@ func (g *G) stAnonStruct() Tri {
 	}
 	return lines(append([]Tri{head}, prints...)...)
 }
+
+// stMapChurn: a short operation history on a fresh local map: inserts in a
+// drawn order, deletes of older keys, re-inserts, then a lookup (comma-ok) of
+// every candidate key and len. Lookups and len are deterministic, so no range.
+func (g *G) stMapChurn() Tri {
+	g.feat("map-churn")
+	kt := []*Type{TInt, TI32, TString, TU8, TI64}[g.n(0, 4, "churnKT")]
+	mt := &Type{K: KMap, Key: kt, Elem: TI32}
+	m := g.freshVar()
+	nkeys := g.n(4, 9, "churnKeys")
+	keyLit := func(i int) Tri {
+		switch kt.K {
+		case KString:
+			return same(quote(fmt.Sprintf("k%d", i)))
+		case KU8:
+			return same(fmt.Sprint(i * 23 % 251))
+		}
+		return same(fmt.Sprint(i*7 - 20))
+	}
+	out := []Tri{tf("%s := %s{}", m, mt.Tri())}
+	nops := g.n(6, 22, "churnOps")
+	for i := 0; i < nops; i++ {
+		k := keyLit(g.n(0, nkeys-1, "churnK"))
+		if g.chance(1, 3, "churnDel") {
+			out = append(out, tf("%s(%s, %s)", tl("delete", "删除", "delete"), m, k))
+		} else {
+			out = append(out, tf("%s[%s] = %d", m, k, i+1))
+		}
+	}
+	e, ok := g.freshVar(), g.freshVar()
+	for i := 0; i < nkeys; i++ {
+		asg := ":="
+		if i > 0 {
+			asg = "="
+		}
+		out = append(out, tf("%s, %s %s %s[%s]", e, ok, asg, m, keyLit(i)))
+		out = append(out, printCall(same(quote("churn")), same(e), same(ok)))
+	}
+	out = append(out, printCall(same(quote("churn len")), lenOf(same(m))))
+	return lines(out...)
+}
